@@ -503,6 +503,12 @@ def run(ctx):
             if a == "#" or a.startswith("harness-error") or a == "<missing>":
                 continue
             a2 = a.replace(":!nobase", ":!apply").replace(":!]", ":!apply]").replace(":! ", ":!apply ")
+            if ":D:!apply" in b:
+                # the abstract codec only knows that a patch against another base *may* fail; whether the real
+                # fossil patch happens to apply depends on the bytes: compare such pushes up to the result
+                import re as _re
+                a2 = _re.sub(r":D:[^\s\]]+", ":D:*", a2)
+                b = _re.sub(r":D:[^\s\]]+", ":D:*", b)
             if a2 != b:
                 ndiff += 1
                 if ndiff <= 3:
